@@ -46,6 +46,7 @@ type Storage struct {
 	byGoid   map[uint64]int
 	pending  map[int]*Pending
 	open     bool // pass everything through (teardown)
+	HonourCtx bool // refuse every call whose context is already done, as a networked backend does
 	Released int  // number of gated calls released so far
 	// Observe, if set, is called with the result of every forwarded call of a registered worker.
 	Observe func(worker int, op, key string, err error)
@@ -139,6 +140,9 @@ func (g *Storage) enter(op, key string) Outcome {
 }
 
 func (g *Storage) Create(ctx context.Context, r kvs.Record) (string, error) {
+	if g.HonourCtx && ctx.Err() != nil {
+		return "", ctx.Err()
+	}
 	switch g.enter("create", r.Key) {
 	case RequestLost:
 		return "", ErrInjected
@@ -153,6 +157,9 @@ func (g *Storage) Create(ctx context.Context, r kvs.Record) (string, error) {
 }
 
 func (g *Storage) Delete(ctx context.Context, key string) error {
+	if g.HonourCtx && ctx.Err() != nil {
+		return ctx.Err()
+	}
 	switch g.enter("delete", key) {
 	case RequestLost:
 		return ErrInjected
@@ -183,6 +190,9 @@ func (g *Storage) WaitForVersionChange(ctx context.Context, key, ver string) err
 }
 
 func (g *Storage) Get(ctx context.Context, key string) (kvs.Record, error) {
+	if g.HonourCtx && ctx.Err() != nil {
+		return kvs.Record{}, ctx.Err()
+	}
 	if g.enter("get", key) != OK {
 		return kvs.Record{}, ErrInjected
 	}
@@ -197,6 +207,9 @@ func (g *Storage) GetMany(ctx context.Context, keys ...string) ([]*kvs.Record, e
 }
 
 func (g *Storage) Put(ctx context.Context, r kvs.Record) (kvs.Record, error) {
+	if g.HonourCtx && ctx.Err() != nil {
+		return kvs.Record{}, ctx.Err()
+	}
 	if g.enter("put", r.Key) != OK {
 		return kvs.Record{}, ErrInjected
 	}
@@ -211,6 +224,9 @@ func (g *Storage) PutMany(ctx context.Context, rs []kvs.Record) error {
 }
 
 func (g *Storage) CasByVersion(ctx context.Context, r kvs.Record) (kvs.Record, error) {
+	if g.HonourCtx && ctx.Err() != nil {
+		return kvs.Record{}, ctx.Err()
+	}
 	if g.enter("cas", r.Key) != OK {
 		return kvs.Record{}, ErrInjected
 	}
